@@ -65,6 +65,21 @@ def check_markup(text, v, ctx):
             break
 
 
+_DECOY = {}
+
+
+def _decoy_text(flavour, fmt):
+    """serialization of a one-node model with its own graph id (built once per store flavour and format)"""
+    key = (flavour, fmt.name)
+    if key not in _DECOY:
+        snap = world.snapshot_all()
+        g = gclass(flavour)(graph_id='PATHDECOY', importer=importer(flavour))
+        g.add_node(node_id='decoy-node', label='NetworkNode', props={'Name': 'decoy', 'Type': 'VM'})
+        _DECOY[key] = g.serialize_graph(format=fmt)
+        world.restore_all(snap)
+    return _DECOY[key]
+
+
 def roundtrip(flavour, gid, v, ctx, expect_validate=True):
     """all formats x entry points for the graph `gid` resident in the store of `flavour`"""
     imp = importer(flavour)
@@ -117,8 +132,22 @@ def roundtrip(flavour, gid, v, ctx, expect_validate=True):
                 if stored(flavour, gid) != want:
                     v.append((f'import-disturbs-source/{fname}/{ename}', ctx))
             # direct entries keep the graph id: import over a deleted source
+            def reused_path():
+                # the same file name served another model a moment ago (a loader that remembers a path must not mix them up)
+                path2 = path + '.reused'
+                try:
+                    with open(path2, 'w', encoding='utf-8') as f:
+                        f.write(_decoy_text(flavour, fmt))
+                    imp.import_graph_from_file_direct(graph_file=path2)
+                    imp.delete_graph(graph_id='PATHDECOY')
+                    with open(path2, 'w', encoding='utf-8') as f:
+                        f.write(text)
+                    return imp.import_graph_from_file_direct(graph_file=path2)
+                finally:
+                    os.unlink(path2)
             for ename, fn in (('string-direct', lambda: imp.import_graph_from_string_direct(graph_string=text)),
-                              ('file-direct', lambda: imp.import_graph_from_file_direct(graph_file=path))):
+                              ('file-direct', lambda: imp.import_graph_from_file_direct(graph_file=path)),
+                              ('file-direct-reused-path', reused_path)):
                 n += 1
                 snap = world.snapshot_all()
                 try:
